@@ -1307,17 +1307,6 @@ def run(ctx):
     with scratch(ID) as d:
         driver = write_driver(d)
         ctx.pmap(worker, indexed, extra=(ctx.tier, ctx.seed, driver), nshards=min(len(indexed), 2 * NPROC))
-    # one structural defect shows in both program forms: keep the memory-variable form's key, drop the SSA twin
-    dropped = []
-    for key in sorted(ctx.violations):
-        if key.startswith("ssa/"):
-            twin = "relooper/" + key[4:]
-            if twin in ctx.violations:
-                dropped.append(key)
-    for key in dropped:
-        del ctx.violations[key]
-    if dropped:
-        ctx.note("ssa_keys_explained_by_relooper_keys", dropped)
     c = ctx.counters
     ctx.note("cfg_outcomes_by_reducibility", {
         "reducible": {"accepted": c.get("accepted_reducible", 0), "rejected": c.get("rejected_reducible", 0), "crashed": c.get("crashed_reducible", 0),
